@@ -31,6 +31,7 @@ type batchArchetypes struct {
 	StartIndex   []uint32
 	EndIndex     []uint32
 	OldArchetype []*archetype
+	OldTarget    []Entity
 	Added        []ID
 	Removed      []ID
 }
@@ -48,6 +49,13 @@ func (s *batchArchetypes) Len() int32 {
 func (s *batchArchetypes) Add(arch, oldArch *archetype, start, end uint32) {
 	s.Archetype = append(s.Archetype, arch)
 	s.OldArchetype = append(s.OldArchetype, oldArch)
+	// The old archetype may be retired and re-used for another target before the events are delivered,
+	// so its relation target is recorded here.
+	var oldTarget Entity
+	if oldArch != nil {
+		oldTarget = oldArch.RelationTarget
+	}
+	s.OldTarget = append(s.OldTarget, oldTarget)
 	s.StartIndex = append(s.StartIndex, start)
 	s.EndIndex = append(s.EndIndex, end)
 }
